@@ -69,6 +69,26 @@ pub fn customs(name: &str, wasm: &[u8], out: &mut Vec<Json>) {
     }
 }
 
+/// C19 (a typed custom section under a CONVENTIONAL name - dylink.0, linking, target_features, reloc.CODE - sees the same, complete emit-time map as any other)
+pub fn index_maps_under_conventional_names(name: &str, wasm: &[u8], out: &mut Vec<Json>) {
+    use std::sync::{Arc, Mutex};
+    #[derive(Debug)] struct Named { name: String, funcs: Vec<walrus::FunctionId>, globals: Vec<walrus::GlobalId>, out: Arc<Mutex<Vec<Option<u32>>>> }
+    impl CustomSection for Named { fn name(&self) -> &str { &self.name }
+        fn data(&self, ids: &IdsToIndices) -> std::borrow::Cow<[u8]> { let mut o = self.out.lock().unwrap(); o.clear();
+            for f in &self.funcs { o.push(catch(|| ids.get_func_index(*f))); } for g in &self.globals { o.push(catch(|| ids.get_global_index(*g))); } std::borrow::Cow::Borrowed(&[]) } }
+    let mut reference: Option<Vec<Option<u32>>> = None;
+    for sec in ["verif-plain-name", "dylink.0", "linking", "target_features", "reloc.CODE"] {
+        let r = catch(|| { let mut m = Module::from_buffer(wasm).ok()?; let o = Arc::new(Mutex::new(vec![]));
+            let rec = Named { name: sec.to_string(), funcs: m.funcs.iter().map(|f| f.id()).collect(), globals: m.globals.iter().map(|g| g.id()).collect(), out: o.clone() };
+            m.customs.add(rec); let bytes = m.emit_wasm(); let got = o.lock().unwrap().clone(); Some((got, bytes)) });
+        match r { Some(Some((got, bytes))) => { if got.iter().any(|x| x.is_none()) { out.push(v("index-map-wrong", "C19", format!("{}: a typed custom section named {:?} finds {} of {} function / global identifiers without an emit-time index when its data() is called", name, sec, got.iter().filter(|x| x.is_none()).count(), got.len()), wasm, String::new(), String::new())); }
+                else if let Some(rf) = &reference { if *rf != got { out.push(v("index-map-wrong", "C19", format!("{}: a typed custom section named {:?} is handed other emit-time indices than one under a plain name", name, sec), wasm, format!("{:?}", got), format!("{:?}", rf))); } } else { reference = Some(got); }
+                if amod::decode(&bytes).is_err() { out.push(v("output-undecodable", "C02 C19", format!("{}: with a typed custom section named {:?} the emitted module cannot be decoded", name, sec), wasm, String::new(), String::new())); } }
+            Some(None) => return,
+            None => out.push(v("walrus-panics-on-valid-module", "C02 C19", format!("{}: emitting with a typed custom section named {:?} panics", name, sec), wasm, String::new(), String::new())) }
+    }
+}
+
 /// C12 / C14 (API): a raw section with a `.debug*` name ADDED to module.customs is not written while DWARF generation is off, and it does not stop
 /// the sections stored after it from being written
 pub fn customs_added_debug_named(name: &str, wasm: &[u8], out: &mut Vec<Json>) {
@@ -368,9 +388,27 @@ pub fn emit_maps_after_import_added(name: &str, wasm: &[u8], out: &mut Vec<Json>
             let got = ((n_imp(b, 0), b.funcs.len()), (n_imp(b, 1), b.tables.len()), (n_imp(b, 2), b.mems.len()), (n_imp(b, 3), b.globals.len()));
             let want = ((n_imp(&a, 0) + with_f as usize, a.funcs.len()), (n_imp(&a, 1) + 1, a.tables.len()), (n_imp(&a, 2) + 1, a.mems.len()), (n_imp(&a, 3) + 1, a.globals.len()));
             if got != want { out.push(v("entities-duplicated-or-lost-after-import", "C19 C04 C02", format!("{}: (imported, local) counts of functions / tables / memories / globals are {:?}, expected {:?}", what, got, want), wasm, format!("{:?}", got), format!("{:?}", want))); }
+            // names stay on their entities: an import added through the API is emitted behind the existing imports and in front of the local entities,
+            // so every LOCAL entity moves up by one and takes its name along (C13 through the emit-time maps)
+            { let (na, nb) = (entity_names(&a), entity_names(b)); let added = [with_f as u32, 1, 1, 1]; let kinds = ["function", "table", "memory", "global"];
+              for k in 1..4 {   // functions are left out: walrus re-orders the local functions when it emits (C19's emit-time maps cover them)
+                  let ni = n_imp(&a, k as u8) as u32; let mut want: BTreeMap<u32, String> = na[k].iter().filter(|(i, _)| match k { 0 => (**i as usize) < n_imp(&a, 0) + a.funcs.len(), 1 => (**i as usize) < n_imp(&a, 1) + a.tables.len(), 2 => (**i as usize) < n_imp(&a, 2) + a.mems.len(), _ => (**i as usize) < n_imp(&a, 3) + a.globals.len() }).map(|(i, n)| (if *i < ni { *i } else { *i + added[k] }, n.clone())).collect();
+                  match k { 1 => { want.insert(ni, "added_table".into()); }, 2 => { want.insert(ni, "added_memory".into()); }, 3 => { want.insert(ni, "added_global".into()); }, _ => {} }
+                  let got: BTreeMap<u32, String> = if k == 0 { nb[k].clone() } else { nb[k].clone() };
+                  if got != want && !(k == 0 && !with_f && got == na[0]) { out.push(v("names-not-preserved", "C13 C19", format!("{}: {} names are {:?}, expected {:?}", what, kinds[k], got, want), wasm, format!("{:?}", got), format!("{:?}", want))); break; } } }
             fixpoint_of_output(&what, wasm, &oo.out, out); }
         Some(Some((_, Err(e)))) => out.push(v("output-undecodable", "C02 C19", format!("{}: after importing entities through the API the emitted module cannot be decoded: {}", name, e), wasm, String::new(), String::new())),
         Some(None) => {}, None => out.push(v("walrus-panics-on-valid-module", "C02 C19", format!("{}: importing entities through the API then emitting panics", name), wasm, String::new(), String::new())) }
+}
+
+/// the function / table / memory / global name maps of a decoded module's `name` section(s)
+pub fn entity_names(a: &AMod) -> [BTreeMap<u32, String>; 4] {
+    use wasmparser::{BinaryReader, Name, NameSectionReader};
+    let mut n: [BTreeMap<u32, String>; 4] = Default::default();
+    for c in a.customs.iter().filter(|c| c.0 == "name") { for s in NameSectionReader::new(BinaryReader::new(&c.1, 0, WasmFeatures::all())) {
+        let (k, m) = match s { Ok(Name::Function(m)) => (0, m), Ok(Name::Table(m)) => (1, m), Ok(Name::Memory(m)) => (2, m), Ok(Name::Global(m)) => (3, m), _ => continue };
+        for x in m.into_iter().filter_map(|x| x.ok()) { n[k].insert(x.index, x.name.to_string()); } } }
+    n
 }
 
 /// the function-name map of a decoded module's `name` section(s)
@@ -616,5 +654,5 @@ pub fn all_module_oracles(name: &str, wasm: &[u8], out: &mut Vec<Json>) {
     }
     // names again with synthetic names switched on: every real name of the input stays where it was
     { let mut scfg = ModuleConfig::new(); scfg.generate_producers_section(false).generate_synthetic_names_for_anonymous_items(true); if let Some(Ok(obs)) = catch(|| observe(wasm, &mut scfg)) { names(&format!("{} (synthetic names on)", name), wasm, &obs, true, out); } }
-    with_config_switches(out); lookups(name, wasm, out); customs(name, wasm, out); customs_added_debug_named(name, wasm, out); customs_remove_raw(name, wasm, out); customs_typed(name, wasm, out); determinism(name, wasm, out); config(name, wasm, out); gc(name, wasm, out); emit_maps_after_import_move(name, wasm, out); emit_maps_after_import_added(name, wasm, out);
+    with_config_switches(out); lookups(name, wasm, out); index_maps_under_conventional_names(name, wasm, out); customs(name, wasm, out); customs_added_debug_named(name, wasm, out); customs_remove_raw(name, wasm, out); customs_typed(name, wasm, out); determinism(name, wasm, out); config(name, wasm, out); gc(name, wasm, out); emit_maps_after_import_move(name, wasm, out); emit_maps_after_import_added(name, wasm, out);
 }
